@@ -190,7 +190,7 @@ def check(ctx):
     # state persists across calls: the boxed callback system is written back as Initialized with the same system and is
     # initialized only when new (shared with C13.b)
     import c13
-    n13 = core.adopt(ctx, c13, lambda o: o["rule"] == "C13.b" and "CallbackSystem::run_with_cleanup" in o["key"] and "RawCallbackSystem" not in o["key"], "C17.c")
+    n13 = core.adopt(ctx, c13, lambda o: o["rule"] == "C13.b" and "CallbackSystem::" in o["key"] and "RawCallbackSystem" not in o["key"], "C17.c")
     ctx.floor("C17.c", n13, 4, "shared write-back obligations of CallbackSystem::run_with_cleanup (C13.b)")
     # ---- C17.d ----
     import c04
